@@ -123,6 +123,8 @@ def conclude(pid, spec, results, tier, seed, wall, kani=()):
         all_obl += obl
         for k, m in (r.meta or {}).get('functions', {}).items():
             fn_under_contract[k] = m
+        for k, h in (r.meta or {}).get('pinned', {}).items():
+            assumed.add('trusted unverified body pinned by hash %s: %s' % (h, k))
         # group diags per function to apply the trait.* redundancy rule
         by_fn = {}
         for d in r.diags:
